@@ -2626,6 +2626,17 @@ def transform_compressible(items, constants, labels):
             return imm != value
         return inner
 
+    # for rules that drop the immediate entirely: labels may still move after
+    # this pass, so the value only counts if it doesn't depend on any label
+    def ImmEqualsFinal(value):
+        def inner(i, p, e):
+            try:
+                imm = i.imm.eval(p, constants, i.line)
+            except AssemblerError:
+                return False
+            return imm == value
+        return inner
+
     def ImmDivisibleBy(value):
         def inner(i, p, e):
             imm = i.imm.eval(p, e, i.line)
@@ -2679,7 +2690,7 @@ def transform_compressible(items, constants, labels):
             NameEquals('addi'),
             RegEquals('rd', 0),
             RegEquals('rs1', 0),
-            ImmEquals(0),
+            ImmEqualsFinal(0),
         ],
         'c.addi': [
             NameEquals('addi'),
@@ -2807,7 +2818,7 @@ def transform_compressible(items, constants, labels):
             NotAuipcJump(),
             RegEquals('rd', 0),
             RegNotEquals('rs1', 0),
-            ImmEquals(0),
+            ImmEqualsFinal(0),
         ],
         'c.mv': [
             NameEquals('add'),
@@ -2819,7 +2830,7 @@ def transform_compressible(items, constants, labels):
             NameEquals('addi'),
             RegNotEquals('rd', 0),
             RegNotEquals('rs1', 0),
-            ImmEquals(0),
+            ImmEqualsFinal(0),
         ],
         'c.ebreak': [
             NameEquals('ebreak'),
@@ -2836,7 +2847,7 @@ def transform_compressible(items, constants, labels):
             NotAuipcJump(),
             RegEquals('rd', 1),
             RegNotEquals('rs1', 0),
-            ImmEquals(0),
+            ImmEqualsFinal(0),
         ],
         'c.swsp': [
             NameEquals('sw'),
